@@ -412,8 +412,10 @@ Section Oracles.
   (* what Path.read_text() of one layer does *)
   Inductive read_result :=
   | RText (t : str)            (* read and decoded *)
-  | RAbsent                    (* is_file() false: missing, a directory, a dangling link *)
-  | RPermission                (* PermissionError *)
+  | RAbsent                    (* is_file() false: missing, a directory, a dangling link; DIPPY_CONFIG unset,
+                                  empty, or naming an unknown user's home (expanduser RuntimeError => skipped) *)
+  | RPermission                (* PermissionError from read_text(), from is_file() of the user/env path, or from
+                                  the walk of _find_project_config (all three are turned into ConfigError) *)
   | ROSError                   (* any other OSError (EIO, EISDIR after a race, ...) *)
   | RDecode                    (* UnicodeDecodeError - a ValueError, not an OSError *)
   | ROther.                    (* any other Exception subclass *)
